@@ -83,7 +83,8 @@ def gen_case(rng, tier):
         case = {'kind': 'split', 'cfg': cfg, 'files': files, 'unsplit': stmts if neutral(stmts) else None}
     else:
         kind = rng.choice(['twice-direct', 'diamond', 'nested-twice', 'missing', 'two-dirs', 'same-dir-twice', 'symlink-dir',
-                           'unselected-include', 'unselected-missing', 'unselected-then-selected', 'selected-include'])
+                           'unselected-include', 'unselected-missing', 'unselected-then-selected', 'selected-include',
+                           'case-twin-names'])
         d = lambda v: {'k': 'data', 'w': 1, 'vals': [('num', v)]}  # noqa
         inc = lambda i: {'k': 'include', 'f': i, 'name': f'inc{i}.asm'}  # noqa
         cfg = {'bits': 16, 'little': False, 'regs': ['ra', 'rb'], 'preZones': [], 'preConsts': [], 'preData': []}
@@ -93,6 +94,12 @@ def gen_case(rng, tier):
             files = [[inc(1), inc(2)], [d(1), inc(3)], [d(2), inc(3)], [d(9)]]
         elif kind == 'nested-twice':
             files = [[inc(1), d(1)], [inc(2), d(2)], [d(3), inc(1)]]
+        elif kind == 'case-twin-names':
+            # two DIFFERENT files whose names differ in letter case only (also: a re-capitalisation of the main file's name):
+            # each is included once, so this is no double inclusion
+            n1, n2 = rng.choice([('Part.asm', 'part.asm'), ('TABLES.asm', 'tables.asm'), ('Main.asm', 'mAIN.asm')])
+            files = [[d(1), {'k': 'include', 'f': 1, 'name': n1}, d(2), {'k': 'include', 'f': 2, 'name': n2}], [d(9)], [d(8), d(7)]]
+            twin_names = {'0': 'main.asm', '1': n1, '2': n2}
         elif kind == 'missing':
             files = [[d(1), {'k': 'include', 'f': 7, 'name': 'nothere.asm'}]]
         elif kind == 'unselected-include':
@@ -107,6 +114,8 @@ def gen_case(rng, tier):
         else:
             files = [[d(1), inc(1), d(2)], [d(9)]]
         case = {'kind': kind, 'cfg': cfg, 'files': files, 'unsplit': None}
+        if kind == 'case-twin-names':
+            case['names'] = twin_names
     if rng.random() < 0.35:
         # a preprocessor symbol named like a word of an included file's name: the directive names the file literally
         incs = [s['name'] for f in case['files'] for s in f if s['k'] == 'include']
@@ -134,7 +143,7 @@ def build(case, files):
     r = random.Random(case['seed'])
     texts = {}
     for i, f in enumerate(files):
-        name = 'main.asm' if i == 0 else f'inc{i}.asm'
+        name = case.get('names', {}).get(str(i)) or ('main.asm' if i == 0 else f'inc{i}.asm')
         sub = case['placement'].get(str(i), '') if i else ''
         texts[(sub + '/' if sub else '') + name] = P.render_file(r, f)
     dirs = list(case['dirs'])
@@ -176,7 +185,7 @@ def judge(case, irs, mr):
         if ir['status'] == 'ok':
             return {'verdict': Verdict.VIOLATION, 'tags': tags, 'detail': 'include name found in two directories was accepted'}
         return {'verdict': Verdict.OK, 'nontrivial': True, 'tags': tags, 'detail': str(ir.get('msg'))[:200]}
-    bad, actual, det = LB.base_judge(dict(case, names={str(i): ('main.asm' if i == 0 else f'inc{i}.asm') for i in range(len(case['files']))}), ir, mr, tags, mt)
+    bad, actual, det = LB.base_judge(dict(case, names=case.get('names') or {str(i): ('main.asm' if i == 0 else f'inc{i}.asm') for i in range(len(case['files']))}), ir, mr, tags, mt)
     if bad:
         return bad
     if case.get('unsplit') is not None and len(irs) > 1:
